@@ -93,7 +93,7 @@ AUDIT = [
     # -- resize fill loop --------------------------------------------------------------------------------------------------
     _e("minimal_lexical::stackvec::{impl#0}::try_resize | vector-invariant at exit (&mut argument) | pub fn try_resize(&mut self, len: usize, value: bigint::Limb) -> Option<()>",
        R_FILL, ["C04", "C08", "C12", "C13"]),
-    _e("minimal_lexical::stackvec::{impl#6}::deref_mut | from_raw_parts-initialised | slice::from_raw_parts_mut(ptr, self.len())",
+    _e("minimal_lexical::stackvec::{impl#6}::deref_mut | from_raw_parts-initialised | slice::from_raw_parts_mut(*",
        R_FILL + " (inside the loop the exposed slice still has the old length, which was initialised on entry)", ["C04", "C08", "C12", "C13"]),
 ] + [
     # -- heap back-end only: consequences of len <= BIGINT_LIMBS, which the heap vector does not enforce ---------------------------------
@@ -106,7 +106,7 @@ AUDIT = [
     _e("minimal_lexical::rounding::round_nearest_tie_even | assert:overflow:Add | fp.exp += shift", R_CAPH, ["C04"], CAP, only="alloc"),
 ] + [
     # -- shipped front-end (7 copies): content-dependent arguments ---------------------------------------------------------
-    _e("roots::fe_%s::parse_exponent | panic via core::option::Option::<T>::unwrap | to_digit(*c).unwrap()" % k,
+    _e("roots::fe_%s::parse_exponent | panic via core::option::Option::<T>::unwrap | to_digit(*" % k,
        "parse_exponent is only called on the output of consume_digits, whose bytes all satisfy is_digit (a content property the engine does not track)", ["C19"])
     for k in ("simple", "fuzz", "integ", "rng", "golang", "random", "unit")
 ] + [
